@@ -385,3 +385,37 @@ func (r *batchRun) actual(a *batchAttempt) string {
 	}
 	return ""
 }
+
+// enumBatchCases enumerates every single-fault placement for batches of 1..4
+// calls over two regions on two servers: one call follows a script of one or
+// two outcomes (the first one not ok), all others succeed.
+func enumBatchCases() []batchCase {
+	rows := []string{"a1", "z1", "b2", "y2"}
+	kinds := []string{"put", "get", "increment", "append"}
+	outcomes := []string{"fatal", "retry", "nsre", "dead-before", "dead-after", "abort"}
+	seconds := []string{"", "ok", "fatal", "retry", "nsre", "dead-before", "dead-after", "abort"}
+	var out []batchCase
+	seed := int64(1)
+	for n := 1; n <= 4; n++ {
+		for p := 0; p < n; p++ {
+			for _, o1 := range outcomes {
+				for _, o2 := range seconds {
+					seed++
+					b := batchCase{Seed: seed, Servers: 2, Bounds: []string{"m"}, Queue: []int{100, 2}[int(seed)%2], Deadline: 20 * time.Second}
+					for i := 0; i < n; i++ {
+						c := batchCall{Kind: kinds[i], Row: rows[i]}
+						if i == p {
+							c.Script = []string{o1}
+							if o2 != "" {
+								c.Script = append(c.Script, o2)
+							}
+						}
+						b.Calls = append(b.Calls, c)
+					}
+					out = append(out, b)
+				}
+			}
+		}
+	}
+	return out
+}
